@@ -159,7 +159,10 @@ class contentsSet(GenericEquality):
                 rem(x)
 
     def intersection(self, other):
-        return contentsSet((x for x in other if x in self), mutable=self.mutable)
+        f = fs.isfs_obj
+        return contentsSet(
+            (x if f(x) else self[x] for x in other if x in self), mutable=self.mutable
+        )
 
     def intersection_update(self, other):
         if not self.mutable:
